@@ -2,14 +2,12 @@ SPECIFICATION Spec
 CONSTANTS
   Circs <- C2
   Streams <- S2
-  Conns <- K2
-  Ports <- P2
-  MaxSteps = 9
-  MaxSubs = 0
+  Conns <- K0
+  Ports <- P1
+  MaxSteps = 8
+  MaxSubs = 3
 INVARIANT TypeOK
 INVARIANT ConsultedInOrder
 INVARIANT OneDecision
 INVARIANT NothingForExit
-INVARIANT ViaExact
 INVARIANT Answered
-INVARIANT ViaNeverRefused
